@@ -299,7 +299,8 @@ def audit_props(pid):
     if bad:
         res["problems"].append("theorems depend on axioms: " + ", ".join(bad))
     n_print = len(re.findall(r"\bPrint\s+Assumptions\b", src))
-    if n_print < len([t for t in thms if t.startswith(pid)]):
+    need = re.findall(r"\b(?:Theorem|Lemma|Corollary)\s+([A-Za-z0-9_']+)", src)
+    if n_print < len(need):
         res["problems"].append("missing Print Assumptions for some theorem")
     res["discharged"] = len(thms) if not res["problems"] else 0
     return res
